@@ -22,23 +22,24 @@ pub(crate) fn vk_lfu(p: &AdmissionPolicy<u64>) -> &mut TinyLFU { p.access_freque
 pub(crate) fn vk_keep_running(p: &AdmissionPolicy<u64>) -> bool { p.keep_running.vk_peek() }
 pub(crate) fn vk_sender(p: &AdmissionPolicy<u64>) -> &crossbeam_channel::Sender<BufferEvent> { &p.sender }
 
-/// TinyLFU of width 8, zero seeds, with solver-chosen estimate per hash 0..=3 (0 = incoming, 1..=3 residents):
-/// nibble f in 0..=15 in all four rows, plus an optional doorkeeper membership (+1): estimates 0..=16.
-pub(crate) fn vk_lfu_with_profile() -> (TinyLFU, [u8; 4]) {
-    let mut fc = fck::vk_zero_sketch(8);
-    let mut dk = dkk::vk_doorkeeper_exact();
+pub(crate) fn vk_plain_lfu() -> TinyLFU { tlk::vk_tiny_lfu(fck::vk_zero_sketch(8), dkk::vk_doorkeeper_exact(), 0, 1000) }
+/// Give the policy's sketch (width 8, zero seeds) a solver-chosen estimate per hash 0..=3 (0 = incoming,
+/// 1..=3 residents): nibble f in 0..=15 in all four rows, plus an optional doorkeeper membership (+1):
+/// estimates 0..=16.  Written IN PLACE after the policy was built from concrete parts.
+pub(crate) fn vk_set_profile(p: &AdmissionPolicy<u64>) -> [u8; 4] {
+    let lfu = vk_lfu(p);
     let mut est = [0u8; 4];
     let mut h = 0u64;
     while h < 4 {
         let f: u8 = kani::any();
         kani::assume(f <= 15);
-        fck::vk_set_counter(&mut fc, h, f);
+        fck::vk_set_counter(tlk::vk_sketch_mut(lfu), h, f);
         let member: bool = kani::any();
-        if member { dkk::vk_place(&mut dk, h as usize, h); }
+        dkk::vk_place_if(tlk::vk_doorkeeper_mut(lfu), h as usize, h, member);
         est[h as usize] = f + if member { 1 } else { 0 };
         h += 1;
     }
-    (tlk::vk_tiny_lfu(fc, dk, 0, 1000), est)
+    est
 }
 
 static mut VICTIMS: [u64; 4] = [0; 4];
@@ -66,12 +67,14 @@ fn maybe_add_rule(fixed_n: Option<usize>) {
     let stats = stk::vk_fresh();
     // in-flight generalisation (RI7): the total may include the weight of an entry whose map entry another
     // thread's delete has already removed but whose weight it has not subtracted yet
-    let (cw, present, weights) = cwk::vk_any_state_with(stats.clone(), fixed_n, fixed_n.is_none(), true);
-    let in_flight = cwk::vk_used(&cw) as i128 - cwk::vk_sum(&cw);
-    let (lfu, est) = vk_lfu_with_profile();
-    let max = cw.get_max_weight();
-    let used0 = cwk::vk_used(&cw);
-    let (policy, _rx) = vk_policy(cw, lfu, stats.clone(), 2);
+    let a = cwk::vk_any_astate(fixed_n, true);
+    let (present, weights) = (a.present, a.weights);
+    let (policy, _rx) = vk_policy(cwk::vk_cache_weight(1, 0, stats.clone()), vk_plain_lfu(), stats.clone(), 2);
+    cwk::vk_populate(vk_cw(&policy), &a);
+    let est = vk_set_profile(&policy);
+    let max = a.max;
+    let used0 = a.used;
+    let in_flight = used0 as i128 - cwk::vk_sum(vk_cw(&policy));
     let w: Weight = kani::any();
     kani::assume(w >= 1);
     let incoming = KeyDescription::new(104u64, 4, 0, w);
@@ -151,48 +154,44 @@ fn maybe_add_rule(fixed_n: Option<usize>) {
     core::mem::forget(policy);
 }
 
+/// C15/C13 / P2: the REAL consumer closure (stashed by the real constructor) applies a delivered batch: every
+/// hash of the batch is recorded exactly once (the sketch's access count grows by the batch length, each
+/// hash's estimate grows), then it parks; after shutdown() it terminates on the Shutdown event.
 #[kani::proof]
-#[kani::unwind(5)]
-fn zz_ap_c() {
+#[kani::unwind(12)]
+fn c15_consumer_applies_each_batch_once() {
     let stats = stk::vk_fresh();
-    let (cw, _p, _w) = cwk::vk_any_state_with(stats.clone(), Some(1), false, true);
-    let (lfu, _est) = vk_lfu_with_profile();
-    let (policy, _rx) = vk_policy(cw, lfu, stats.clone(), 2);
-    let mut sample = policy.cache_weight.sample(5, |h| policy.estimate(h));
-    let k = sample.min_frequency_key();
-    assert!(k.is_some());
-    let k2 = sample.min_frequency_key();
-    assert!(k2.is_none());
-    core::mem::forget(sample);
+    let slot = crate::cache::verif_rt::thread::spawned();
+    let policy = AdmissionPolicy::<u64>::with_channel_capacity(8, CacheWeightConfig::new(4, 2, 100), 2, stats.clone());
+    let h1: u64 = kani::any();
+    let h2: u64 = kani::any();
+    let e1 = policy.estimate(h1);
+    policy.accept(BufferEvent::Full(vec![h1, h2]));
+    assert!(stats.access_added() == 2 && stats.access_dropped() == 0, "C15: a delivered buffer is counted as added, whole");
+    unsafe { vs::PARKED = false; }
+    crate::cache::verif_rt::thread::run(slot, 2);
+    assert!(unsafe { vs::PARKED }, "C15: after applying the batch the consumer waits for the next one");
+    assert!(tlk::vk_total_increments(vk_lfu(&policy)) == 2, "C15: every hash of a delivered batch is recorded exactly once");
+    assert!(policy.estimate(h1) >= e1 + 1 || policy.estimate(h1) >= 15, "C15: delivery reaches the sketch");
+    assert!(vk_sender(&policy).len() == 0, "C15: the batch was consumed");
+    kani::cover!(h1 == h2, "same hash twice in one batch");
     core::mem::forget(policy);
 }
 #[kani::proof]
-#[kani::unwind(5)]
-fn zz_ap_d() {
+#[kani::unwind(12)]
+fn c13_consumer_stops_on_shutdown() {
     let stats = stk::vk_fresh();
-    let (cw, _p, _w) = cwk::vk_any_state_with(stats.clone(), Some(1), false, true);
-    let lfu = tlk::vk_tiny_lfu(fck::vk_zero_sketch(8), dkk::vk_doorkeeper_exact(), 0, 1000);
-    let (policy, _rx) = vk_policy(cw, lfu, stats.clone(), 2);
-    let mut sample = policy.cache_weight.sample(5, |h| policy.estimate(h));
-    let k = sample.min_frequency_key();
-    assert!(k.is_some());
-    let k2 = sample.min_frequency_key();
-    assert!(k2.is_none());
-    core::mem::forget(sample);
-    core::mem::forget(policy);
-}
-
-#[kani::proof]
-#[kani::unwind(5)]
-fn zz_ap_e() {
-    let stats = stk::vk_fresh();
-    let (cw, _p, _w) = cwk::vk_any_state_with(stats.clone(), Some(1), false, true);
-    let lfu = tlk::vk_tiny_lfu(fck::vk_zero_sketch(8), dkk::vk_doorkeeper_exact(), 0, 1000);
-    let (policy, _rx) = vk_policy(cw, lfu, stats.clone(), 2);
-    let w: Weight = kani::any();
-    kani::assume(w >= 1);
-    let incoming = KeyDescription::new(104u64, 4, 0, w);
-    let st = policy.maybe_add(&incoming, &record_victim);
-    assert!(st != CommandStatus::Pending);
+    let slot = crate::cache::verif_rt::thread::spawned();
+    let policy = AdmissionPolicy::<u64>::with_channel_capacity(8, CacheWeightConfig::new(4, 2, 100), 2, stats.clone());
+    policy.shutdown();
+    assert!(!vk_keep_running(&policy), "C13: the consumer is told to stop");
+    unsafe { vs::PARKED = false; }
+    crate::cache::verif_rt::thread::run(slot, 2);
+    assert!(!unsafe { vs::PARKED }, "C13: the consumer terminates on the Shutdown event instead of waiting");
+    // with the consumer gone, hand-overs are counted as dropped (the read path still never blocks)
+    policy.accept(BufferEvent::Full(vec![1, 2, 3]));
+    assert!(stats.access_dropped() == 3 && stats.access_added() == 0, "C15: buffers offered to a stopped consumer are dropped and counted");
+    policy.clear();
+    assert!(stats.access_dropped() == 0, "C13: clear resets the statistics");
     core::mem::forget(policy);
 }
